@@ -59,6 +59,11 @@ T = [
  ("pdf_type_check.rs", 325, 339, "gap", "TypeCheck::new_refined / new_indirect no longer register their type in the context: the harness built every named type through one constructor"),
  ("pdf_type_check.rs", 613, 637, "equivalent", "PROVED equivalent for every configuration, graph, context, object and specification (Props/C08Unwind.lean unwind_mutants_equivalent: same verdict, error kind and work-loop count; both situations are reachable, witness theorems); the families added while analysing it catch the control mutant `> 1`"),
  ("pdf_type_check.rs", 992, 992, "equivalent", "unreachable arm (a key taken from the dictionary always has a value)"),
+ # --- the two binaries ---
+ ("pdf_printer.rs", 90, 175, "outside", "dump_root's breadth-first listing: depth labels, duplicate visits of already printed objects, `if false` debug switches; C01 speaks about panic / abort / hang, and the mutants that make the traversal diverge on cyclic graphs (170 neg, 172 del) ARE killed (hang detected); what is printed is not observed"),
+ ("pdf_printer.rs", 176, 235, "outside", "spacing of the extracted text on stdout (C12 owns the extracted tokens; the binary's formatting is no property's subject)"),
+ ("pdf_printer.rs", 236, 460, "outside", "log offsets, command-line option declarations, log-level table, JSON output switch"),
+ ("rtps_parse.rs", 1, 80, "outside", "the rtps_parse binary (file loop, packet counter, exit codes, argument handling); C20's checks call the library parser the binary wraps"),
  # --- operator set B only ---
  ("pdf_file.rs", 320, 333, "outside", "XrefSectT::is_valid (free-list validation helper) is not called by the loader or any property's code path"),
  ("pdf_content_streams.rs", 456, 456, "equivalent", "at end of input the next loop iteration's first parse fails with end-of-buffer exactly where the `break` left; same result"),
@@ -91,8 +96,9 @@ def classify(r):
 
 def main():
     rs = [json.loads(l) for l in open(os.path.join(ROOT, "mutation", "results.jsonl"))]
-    pb = os.path.join(ROOT, "mutation", "results_B.jsonl")
-    if os.path.exists(pb): rs += [json.loads(l) for l in open(pb)]
+    for nm in ("results_B.jsonl", "results_bin.jsonl"):
+        pb = os.path.join(ROOT, "mutation", nm)
+        if os.path.exists(pb): rs += [json.loads(l) for l in open(pb)]
     rerun = {}
     for nm in ("rerun.jsonl", "rerun_B.jsonl"):
         p = os.path.join(ROOT, "mutation", nm)
@@ -106,7 +112,7 @@ def main():
     st = collections.Counter(r["status"].split(":")[0] for r in rs)
     out = ["# Mutation sweep (checklib/mutsweep.py) - summary", "",
            "Single-token mutants, two operator sets (A: relational / equality / boolean / arithmetic operator swaps, literal n -> n+1, true <-> false, negated `if`, deleted statement; B: < <-> >, n -> n-1, one operand of && / || dropped, break <-> continue, min <-> max, return Some -> None, * / %, .. <-> ..=, is_some/is_ok/is_empty flipped) "
-           "of the non-test part of the 23 source files the properties are anchored in; one mutant per (line, operator kind). "
+           "of the non-test part of the 25 source files the properties are anchored in (23 library files, sets A and B; the binaries pdf_printer.rs and rtps_parse.rs, set A); one mutant per (line, operator kind). "
            "A mutant that does not compile is `stillborn`; one that fails the crate's own 132 tests is `test-killed` (not the kind of change the checks are for); "
            "the others are run through the quick tier of every check mapped to the file (VERIF_REPO = private worktree).", "",
            f"* mutants: {len(rs)}; stillborn {st['stillborn']}; killed by the crate's tests {st['test-killed']}; "
